@@ -124,3 +124,96 @@ func c04DecodeWrites(c *Ctx, p *core.Prog) {
 	}
 	r.Floor("decode-writes", n, 3, "decoding loops in the tokenizer")
 }
+
+// decode-verbatim: what a quoted-text reader puts into the value for an ordinary character is that character. A
+// WriteRune / WriteByte whose argument is f(c), with c decoded inside the reader's loop and f a function of this
+// module (normalizeQuote), rewrites the content: 'it’s' loses its apostrophe's identity, and a typographic quote inside
+// '...' or "..." even ends the literal. Mapping the rune only for the comparison with the delimiter is fine.
+func c04DecodeVerbatim(c *Ctx, p *core.Prog, scope string, fired map[string]bool) int {
+	r := c.R
+	n := 0
+	for _, fn := range p.SrcFuncs(scope) {
+		lb := loopBlocks(fn)
+		inLoopDecode := func(v ssa.Value) bool {
+			ex, ok := v.(*ssa.Extract)
+			if !ok {
+				return false
+			}
+			call, ok := ex.Tuple.(*ssa.Call)
+			if !ok {
+				return false
+			}
+			f := call.Call.StaticCallee()
+			return f != nil && core.FnPkg(f) != nil && core.FnPkg(f).Path() == "unicode/utf8" && strings.HasPrefix(f.Name(), "DecodeRune") && lb[call.Block()]
+		}
+		// v is (a merge containing) g(c) for a content rune c
+		var mapped func(v ssa.Value, d int) string
+		mapped = func(v ssa.Value, d int) string {
+			if d > 4 {
+				return ""
+			}
+			switch x := v.(type) {
+			case *ssa.Phi:
+				for _, e := range x.Edges {
+					if m := mapped(e, d+1); m != "" {
+						return m
+					}
+				}
+			case *ssa.Call:
+				g := x.Call.StaticCallee()
+				if g == nil || !core.InModule(g) {
+					return ""
+				}
+				for _, a := range x.Call.Args {
+					if inLoopDecode(a) {
+						return g.Name()
+					}
+					if ph, ok := a.(*ssa.Phi); ok {
+						for _, e := range ph.Edges {
+							if inLoopDecode(e) {
+								return g.Name()
+							}
+						}
+					}
+				}
+			}
+			return ""
+		}
+		seq := 0
+		for _, b := range fn.Blocks {
+			if !lb[b] {
+				continue
+			}
+			for _, in := range b.Instrs {
+				call, ok := in.(*ssa.Call)
+				if !ok {
+					continue
+				}
+				f := call.Call.StaticCallee()
+				if f == nil || f.Signature.Recv() == nil || !(f.Name() == "WriteRune" || f.Name() == "WriteByte") || len(call.Call.Args) != 2 {
+					continue
+				}
+				if pk := core.FnPkg(f); pk == nil || (pk.Path() != "bytes" && pk.Path() != "strings") {
+					continue
+				}
+				seq++
+				n++
+				key := core.FnName(fn) + sprintf("|write#%d", seq)
+				g := mapped(call.Call.Args[1], 0)
+				if fired != nil {
+					if g != "" {
+						fired[key] = true
+					}
+					continue
+				}
+				if g != "" {
+					r.Violate("decode-verbatim", key, p.Pos(call.Pos()), "the character put into the decoded value is "+g+"(c), not the character c read from the input: content that "+g+" maps (typographic quotes) is rewritten in string and identifier values")
+				} else {
+					r.OK("decode-verbatim", key, p.Pos(call.Pos()), "")
+				}
+			}
+		}
+	}
+	return n
+}
+
